@@ -26,7 +26,9 @@ ASSUMPTIONS = [
 ]
 
 
-def patterns_for(tree_files):
+def patterns_for(tree_files, dup_bias=False):
+    """exclude lists generated from the tree.  `dup_bias` (CLI shards, where the two front-end spellings of one
+    list are compared) raises the share of lists in which a pattern occurs twice."""
     from hypothesis import strategies as st
 
     files = sorted(f for f in tree_files if not f.startswith(".."))
@@ -47,17 +49,27 @@ def patterns_for(tree_files):
     # (the last matching pattern decides).  Only extensions that no directory name carries.
     with_ext = [f for f in files if os.path.splitext(f)[1]]
     reinclude = st.sampled_from(with_ext or files).map(lambda f: ["*" + os.path.splitext(f)[1], "!" + os.path.basename(f)]) if with_ext else st.nothing()
+    plain = _plain_lists(st, files, variants)
+    # a list is a sequence, not a set: the same pattern again *after* a negation overrides the negation
+    # (`*.h !keep.h *.h` removes keep.h), a repeated negation re-includes again (`!keep.h *.h !keep.h` keeps it);
+    # a repetition without anything in between changes nothing.  However the list is spelled - all with -x, all in the
+    # analysis file, or split between the two - it is the same sequence.
+    dup_plain = st.tuples(plain, st.integers(0, 2)).map(lambda t: t[0] + [t[0][t[1] % len(t[0])]])
     if with_ext:
-        return st.one_of(_plain_lists(st, files, variants), _plain_lists(st, files, variants), _plain_lists(st, files, variants), reinclude,
-                         st.tuples(reinclude, _plain_lists(st, files, variants)).map(lambda t: t[0] + [q for q in t[1] if q not in t[0]][:1]))
-    return _plain_lists(st, files, variants)
+        repeat = reinclude.map(lambda r: r + [r[0]])
+        repeat_neg = reinclude.map(lambda r: [r[1], r[0], r[1]])
+        mixed = st.tuples(reinclude, plain).map(lambda t: t[0] + [q for q in t[1] if q not in t[0]][:1])
+        if dup_bias:
+            return st.one_of(plain, plain, reinclude, mixed, repeat, repeat, repeat_neg, dup_plain)
+        return st.one_of(plain, plain, plain, reinclude, mixed, repeat, repeat_neg, dup_plain)
+    return st.one_of(plain, plain, plain, dup_plain) if not dup_bias else st.one_of(plain, dup_plain)
 
 
 def _plain_lists(st, files, variants):
     return st.lists(st.sampled_from(files).flatmap(lambda f: st.sampled_from(variants(f))), min_size=1, max_size=3, unique=True)
 
 
-def case_strategy():
+def case_strategy(cli=False):
     from hypothesis import strategies as st
 
     from vlib import gen_cb
@@ -97,9 +109,12 @@ def case_strategy():
             c["tree"]["gen/cond_only.c"] = {"items": [["chain", [["ifdef", "A", [["include", "quote", "../condinc/a.h"]]]], [["include", "quote", "../condinc/b.h"]]], ["code", 1]], "style": [0]}
             pn = draw(st.sampled_from(sorted(c["platforms"])))
             c["platforms"][pn].append({"file": "gen/cond_only.c", "defines": draw(st.sampled_from([[], ["A=1"]])), "dirs": [], "forced": []})
-        c["excludes"] = draw(patterns_for(list(c["tree"]) + list(c.get("extra", {}))))
+        c["excludes"] = draw(patterns_for(list(c["tree"]) + list(c.get("extra", {})), dup_bias=cli))
         if cond_only and draw(st.booleans()):
             c["excludes"] = (c["excludes"] + [draw(st.sampled_from(["gen/", "gen/cond_only.c", "cond_only.c"]))])[-3:]
+        if cli and len(c["excludes"]) > 1:
+            # the list split between the two spellings: the first k patterns with -x, the rest in the analysis file
+            c["x_split"] = draw(st.integers(1, len(c["excludes"]) - 1))
         return c
 
     return case()
@@ -224,8 +239,14 @@ def check_case(case, res: Result, cli=False):
         if cli:
             xargs = [a for p in E for a in ("-x", p)]
             outs = {}
-            for tag, analysis_excl, args in (("file", True, []), ("flag", False, xargs)):
-                mm = cbcase.materialise({**case, "excludes_in_file": analysis_excl}, root)
+            forms = [("file", E, []), ("flag", None, xargs)]
+            k = case.get("x_split")
+            if k and 0 < k < len(E):
+                # -x patterns come first, those of the analysis file follow: E[:k] with -x and E[k:] in the file is the list E
+                forms.append(("split", E[k:], [a for p in E[:k] for a in ("-x", p)]))
+                res.labels["cli-list-split-between-x-and-file"] += 1
+            for tag, file_excl, args in forms:
+                mm = cbcase.materialise({**case, "excludes": file_excl, "excludes_in_file": file_excl is not None}, root)
                 rc, out, err = observe.run_cli("codebasin", ["-R", "summary", *args, mm["analysis"]], cwd=root)
                 rc2, out2, err2 = observe.run_cli("codebasin.tree", [*args, mm["analysis"]], cwd=root)
                 if rc or rc2:
@@ -238,6 +259,8 @@ def check_case(case, res: Result, cli=False):
                 outs[tag] = ({k: v for k, v in s["rows"].items()}, s["total"], s["divergence"], s["coverage"], legend, rows)
             if outs["file"] != outs["flag"]:
                 vs.append(make_violation("cli:-x-differs-from-analysis-file-exclude", cj, _j(outs["file"]), _j(outs["flag"])))
+            elif "split" in outs and outs["split"] != outs["flag"]:
+                vs.append(make_violation("cli:list-split-between-x-and-file-differs", cj, {"-x": E[:k], "analysis file": E[k:], "all with -x": _j(outs["flag"])}, _j(outs["split"])))
             got = {k: v[0] for k, v in outs["flag"][0].items()}
             if got != smE and sum(smE.values()):
                 vs.append(make_violation("cli:-x-summary-differs-from-api", cj, sorted((sorted(k), v) for k, v in smE.items()), sorted((sorted(k), v) for k, v in got.items())))
@@ -256,6 +279,10 @@ def check_case(case, res: Result, cli=False):
         ext_defines = any(k.startswith("../ext/") and "define" in t for k, t in m["texts"].items())
         survivor_cond = any("#" in m["texts"].get(f, "") and "if" in m["texts"].get(f, "") for f in rE)
         nt = bool(removed) and (removed_defines or ext_defines) and survivor_cond
+        if len(set(E)) < len(E):
+            res.labels["pattern-repeated-in-list"] += 1
+            if any(q.startswith("!") for q in E):
+                res.labels["pattern-repeated-around-negation"] += 1
         res.case(key=[m["texts"], case["platforms"], E], nontrivial=nt, sample={"excludes": E, "removed": removed, "survivors": sorted(rE)} if nt else None, labels=[f"removed={min(len(removed),4)}", "ext" if has_ext else "no-ext"])
     return vs
 
@@ -267,7 +294,7 @@ def _j(o):
 def _shard(seed, n, known, cli):
     core.setup_import_path()
     res = Result()
-    core.hyp_search(case_strategy(), lambda c, r: check_case(c, r, cli=cli), n, seed, res, known_sigs=known, shrink=not cli)
+    core.hyp_search(case_strategy(cli=cli), lambda c, r: check_case(c, r, cli=cli), n, seed, res, known_sigs=known, shrink=not cli)
     return res
 
 
